@@ -4,13 +4,18 @@ CONSTANTS
   NoFile = "nofile"
   Rich = FALSE
   MaxOps = 3
+  TableSetSel = {"plain", "sharedScalarArray", "sharedArrayScalar", "sharedLength", "sharedKind"}
   Deviation = "none"
 SPECIFICATION Spec
 INVARIANT TypeOK
 INVARIANT C03_Coherent
 INVARIANT C03_ModelCoherent
+INVARIANT C03_TableSets
+INVARIANT C03_CellsOfModel
+INVARIANT C03_FreshEqualsObject
 PROPERTY PrefixPreserved
 PROPERTY NoClobber
 PROPERTY NoCreateOnAppend
 PROPERTY RefusalsChangeNothing
+PROPERTY TableSetIndependent
 CHECK_DEADLOCK FALSE
